@@ -9,6 +9,7 @@
 -/
 import Csvq.Lemmas.Group
 import Csvq.Props.C04
+import Csvq.Props.C13
 namespace Csvq.C12
 open Csvq
 
@@ -49,6 +50,19 @@ theorem filter_indep_of_cut {α} (p : α → Bool) (c1 c2 : List (List α)) (h :
 theorem group_indep_of_cut {κ : Type} [DecidableEq κ] (c1 c2 : List (List (κ × Nat)))
     (h : c1.flatten = c2.flatten) : groupImpl c1 = groupImpl c2 :=
   C04.group_indep_chunks c1 c2 h
+
+/-- the real cutting: `GoroutineTaskManager.RecordRange` (definition regenerated from the source and
+    proved equal to the model in C13.recordRange_source_tie) gives the workers contiguous index ranges
+    that, concatenated in worker order, are exactly `0 … len-1` — for every length and worker count -/
+theorem record_ranges_tile (len n : Nat) (hn : 0 < n) :
+    (List.range n).flatMap (Csvq.ForkJoin.rrIndices len n) = List.range len :=
+  Csvq.C13.recordRange_tiles len n hn
+
+/-- hence a `Run` callback evaluated by n workers over their ranges visits every row exactly once,
+    and collecting the slot-wise results in worker order is the sequential map, whatever n is -/
+theorem run_over_ranges_is_map {β} (f : Nat → β) (len n : Nat) (hn : 0 < n) :
+    (List.range n).flatMap (fun k => (Csvq.ForkJoin.rrIndices len n k).map f) = (List.range len).map f := by
+  rw [← record_ranges_tile len n hn, List.map_flatMap]
 
 /-! non-vacuity -/
 example : ([[1, 2], [], [3]].map (List.filter (· > 1))).flatten = [1, 2, 3].filter (· > 1) := by decide
